@@ -218,7 +218,7 @@ TRUSTED = [
 
 
 # row layout of Arb.Cases.ctl_case
-CID, DX, DS, DC, DF, CNEV, DD, DK, DL, DFILES, DPT, DST, DSTC = range(13)
+CID, DX, DS, DC, DF, CNEV, DD, DK, DL, DFILES, DPT, DST, DSTC, DFSPEC = range(14)
 
 
 def judge_delivery(run, cases, rows, pid, why):
